@@ -40,7 +40,6 @@ func ruleStringBuffers(c *Ctx) {
 		return
 	}
 	const M = "P:pj.Message[P:idx:]"
-	lenM := "len(" + M + ")"
 	bad := map[string]bool{}
 	report := func(site, msg, wit string) {
 		if !bad[site+msg] {
@@ -90,10 +89,11 @@ func ruleStringBuffers(c *Ctx) {
 			report("validate-args", "validator must receive (&maxStringSize, &size, &needCopy), got "+rest, "")
 		}
 		// padding fact
+		LB := affAtom("len(P:pj.Message)").Add(affAtom("P:idx"), -1) // bytes from the opening quote to the end of the message
 		var padFact *SymCond
 		for k := range sp.Conds {
 			cd := &sp.Conds[k]
-			if cd.Other == "" && cd.R.IsConst() && cd.L.T[lenM] == 1 && (cd.Op == token.LSS || cd.Op == token.GEQ) {
+			if cd.Other == "" && cd.R.IsConst() && cd.L.T["len(P:pj.Message)"] == 1 && (cd.Op == token.LSS || cd.Op == token.GEQ) {
 				padFact = cd
 				break
 			}
@@ -102,7 +102,7 @@ func ruleStringBuffers(c *Ctx) {
 			report("pad", "no padding test on the remaining input before the SIMD validator runs (undecided)", "")
 			continue
 		}
-		if padFact.L.T["P:maxStringSize"] != -1 || len(padFact.L.T) != 2 || padFact.L.K != 0 {
+		if !padFact.L.Eq(LB.Add(affAtom("P:maxStringSize"), -1)) {
 			report("pad", "the padding test compares "+padFact.L.String()+" with a constant; it must compare the bytes available *after the string's maximum extent* (len(buf) − maxStringSize): a string that closes near the end of the input is otherwise scanned in place and the 32-byte load containing its closing quote reads past the input", "a string that starts >= 64 bytes before the end of the input and closes within its last 31 bytes")
 			continue
 		}
@@ -117,19 +117,17 @@ func ruleStringBuffers(c *Ctx) {
 			}
 		} else {
 			okPad := false
-			if m := reMakeLen.FindStringSubmatch(BUF); m != nil {
-				// length must be len(M)+k, k >= need
-				ln := m[1]
-				if strings.HasPrefix(ln, lenM+"+") {
-					if k, err := strconv.Atoi(ln[len(lenM)+1:]); err == nil && k >= need {
-						okPad = true
-					}
+			if mk, isMake := sp.Env.makes[BUF]; isMake {
+				// length must be len(buf)+k, k >= need
+				d := mk[0].Add(LB, -1)
+				if d.IsConst() && d.K >= need {
+					okPad = true
 				}
 			} else if m := reArrLit.FindStringSubmatch(BUF); m != nil {
 				n, _ := strconv.Atoi(m[1])
 				// bound on len(M) on this path
 				for _, cd := range sp.Conds {
-					if cd.Other == "" && cd.R.IsConst() && len(cd.L.T) == 1 && cd.L.T[lenM] == 1 && cd.L.K == 0 {
+					if cd.Other == "" && cd.R.IsConst() && cd.L.Eq(LB) {
 						max := int64(-1)
 						if cd.Op == token.LEQ {
 							max = cd.R.K
